@@ -5,3 +5,16 @@ pub struct ExPoll<T>(core::task::Poll<T>);
 
 #[verifier::external_body]
 pub struct Context<'a> { _p: core::marker::PhantomData<&'a ()> }
+
+// `?` on a Result inside a fn returning Poll<Result<..>> / Poll<Option<Result<..>>> (core's FromResidual impls)
+pub assume_specification<T, E, F: From<E>>[ <Poll<Result<T, F>> as core::ops::FromResidual<Result<core::convert::Infallible, E>>>::from_residual ](
+    x: Result<core::convert::Infallible, E>) -> (r: Poll<Result<T, F>>)
+    ensures x matches Err(e) ==> (r matches Poll::Ready(Err(f)) && call_ensures(<F as From<E>>::from, (e,), f));
+
+pub assume_specification<T, E, F: From<E>>[ <Poll<Option<Result<T, F>>> as core::ops::FromResidual<Result<core::convert::Infallible, E>>>::from_residual ](
+    x: Result<core::convert::Infallible, E>) -> (r: Poll<Option<Result<T, F>>>)
+    ensures x matches Err(e) ==> (r matches Poll::Ready(Some(Err(f))) && call_ensures(<F as From<E>>::from, (e,), f));
+
+// core's reflexive conversion `impl<T> From<T> for T`
+pub assume_specification<T>[ <T as From<T>>::from ](t: T) -> (r: T)
+    ensures r == t;
